@@ -229,6 +229,8 @@ func TestC12CrashPoints(t *testing.T) {
 	var totalInst, totalHit int
 	budget := fshelper.NewBudget(45*time.Second, 1)
 	cases := 0
+	harnessErrs, runsTotal := 0, 0
+	lastHarnessErr := ""
 	rapid.Check(t, func(t *rapid.T) {
 		w := genWorkload(t, cases == 0)
 		order := rapid.Uint64().Draw(t, "pointOrder")
@@ -399,12 +401,18 @@ func TestC12CrashPoints(t *testing.T) {
 			outs = append(outs, runPts(again)...)
 		}
 
+		runsTotal += len(outs)
 		hit := map[instance]bool{}
 		var firstViol *outcome
 		for n := range outs {
 			o := &outs[n]
 			if o.harness {
-				ev.Inconclusive("crash run %v: %v", o.pt, o.err)
+				// environment trouble in a single run (overloaded machine: strace/helper start timeouts) is not a
+				// verdict; the point counts as not evaluated. Too many of them make the whole run inconclusive.
+				harnessErrs++
+				lastHarnessErr = fmt.Sprintf("crash run %v: %v", o.pt, o.err)
+				rec.Label("crash-run-harness-error")
+				continue
 			}
 			labels := []string{"kill-on-" + o.pt.syscall}
 			if o.hit != nil {
@@ -457,6 +465,9 @@ func TestC12CrashPoints(t *testing.T) {
 				firstViol.hitDesc, firstViol.pt.syscall, firstViol.pt.when, firstViol.err, desc)
 		}
 	})
+	if harnessErrs > 0 && harnessErrs*4 > runsTotal {
+		ev.Inconclusive("%d of %d crash runs hit harness/environment errors, last: %s", harnessErrs, runsTotal, lastHarnessErr)
+	}
 	rec.Set("crash_point_instances", totalInst)
 	rec.Set("crash_point_instances_hit", totalHit)
 	// "exhaustive" here means: every syscall instance of every generated workload was used as a crash point;
@@ -465,6 +476,14 @@ func TestC12CrashPoints(t *testing.T) {
 }
 
 func crashRun(w *workload, objs []*fsobj.Obj, pt point, instPos map[instance]int, firstWrite, lastLink int) (o outcome) {
+	o = crashRunOnce(w, objs, pt, instPos, firstWrite, lastLink)
+	if o.harness {
+		o = crashRunOnce(w, objs, pt, instPos, firstWrite, lastLink)
+	}
+	return o
+}
+
+func crashRunOnce(w *workload, objs []*fsobj.Obj, pt point, instPos map[instance]int, firstWrite, lastLink int) (o outcome) {
 	o.pt = pt
 	inj := []sysinject.Inject{{Syscall: pt.syscall, Signal: "SIGKILL", When: fmt.Sprint(pt.when)}}
 	run, err := fshelper.Execute(w.spec, w.pre, inj, runTimeout)
